@@ -1,9 +1,14 @@
 package main
 
 import (
+	"bytes"
 	"context"
 	"fmt"
+	"net/http"
 	"runtime"
+	"strings"
+
+	xh2 "golang.org/x/net/http2"
 
 	mh2 "mosn.io/mosn/pkg/module/http2"
 	mhpack "mosn.io/mosn/pkg/module/http2/hpack"
@@ -16,7 +21,7 @@ import (
 // or allocate for announced lengths whose bytes have not arrived.
 func c08(args []string) int {
 	run := NewRun("C08", args)
-	run.Sum.Rule = "h2: (a) frame streams with single-field corruptions (every length field to 0,1,2,3,truth+-1,0x7fff,0xffff,0xffffff,2^20(+1); type, flags, stream id, payload bytes, pad lengths, truncation) and random bytes to MFramer.ReadFrame under recover() with a 5 s watchdog, whole and chunked; (b) HPACK blocks: corruptions of valid representation sequences (truncation, bit flips, over-long varints, announced huge strings, EOS / over-long padding), with and without SetMaxStringLength / SetEmitEnabled(false); (c) Huffman decoder and varint decoder on corrupted and random input; (d) allocation probes: announced lengths up to 2^31 with no bytes behind them, runtime.MemStats TotalAlloc delta. Non-trivial: every case; distinct by input bytes."
+	run.Sum.Rule = "h2: (a) frame streams with single-field corruptions (every length field to 0,1,2,3,truth+-1,0x7fff,0xffff,0xffffff,2^20(+1); type, flags, stream id, payload bytes, pad lengths, truncation) and random bytes to MFramer.ReadFrame under recover() with a 5 s watchdog, whole and chunked; (b) HPACK blocks: corruptions of valid representation sequences (truncation, bit flips, over-long varints, announced huge strings, EOS / over-long padding), with and without SetMaxStringLength / SetEmitEnabled(false); (c) Huffman decoder and varint decoder on corrupted and random input; (e) SETTINGS_MAX_FRAME_SIZE values inside and outside the RFC range sent to a real MClientConn followed by a request with a 40 kB body (sender must finish or the setting must be refused); (d) allocation probes: announced lengths up to 2^31 with no bytes behind them, runtime.MemStats TotalAlloc delta. Non-trivial: every case; distinct by input bytes."
 	ss := newShardSet(run)
 	compareReference = false
 	framesStreams(run, ss, "c08", false, run.N(150, 2000), false)
@@ -26,6 +31,7 @@ func c08(args []string) int {
 	hpackIntsMalformed(run, ss)
 	hpackHuffmanMalformed(run, ss)
 	allocProbes(run)
+	clientSettingsProbes(run)
 	ss.close()
 	return run.Finish()
 }
@@ -169,6 +175,71 @@ func allocProbes(run *Run) {
 			}
 			if delta > limit {
 				run.Fail("h2frame:allocates-for-announced-length", fmt.Sprintf("ReadFrame on a header announcing %d bytes allocated %d bytes", l, delta), map[string]interface{}{"len": l, "type": t, "allocated": delta})
+			}
+		}
+	}
+}
+
+// clientSettingsProbes: SETTINGS values outside the RFC ranges sent by an upstream peer must be refused
+// (connection error) or at least must not wedge or crash the request sender of MOSN's HTTP/2 client.
+func clientSettingsProbes(run *Run) {
+	ctx := context.Background()
+	for _, v := range []uint32{16384, 1<<24 - 1, 0, 1, 16383, 1 << 24, 1 << 31, 1<<32 - 1} {
+		if abortRun {
+			return
+		}
+		valid := v >= 16384 && v <= 1<<24-1
+		fc := &fakeConn{}
+		cc := mh2.NewClientConn(fc)
+		cc.WriteInitFrame()
+		var w bytes.Buffer
+		xh2.NewFramer(&w, nil).WriteSettings(xh2.Setting{ID: xh2.SettingMaxFrameSize, Val: v})
+		buf := buffer.NewIoBufferBytes(append([]byte(nil), w.Bytes()...))
+		var herr error
+		f, _, err := cc.Framer.ReadFrame(ctx, buf, 0)
+		if err == nil {
+			_, _, _, _, _, herr = cc.HandleFrame(ctx, f)
+		} else {
+			herr = err
+		}
+		rep := map[string]interface{}{"part": "client-settings", "max_frame_size": v}
+		run.Count(fmt.Sprintf("clisettings|%d", v), true, "client-settings-probe")
+		if herr != nil {
+			if valid {
+				run.Fail("h2conn:client-refuses-valid-max-frame-size", fmt.Sprintf("SETTINGS_MAX_FRAME_SIZE=%d: %v", v, herr), rep)
+			}
+			continue // refused: the connection is torn down by the caller
+		}
+		req, _ := http.NewRequest("POST", "http://up.example/x", nil)
+		ms := mh2.NewMClientStream(cc, req)
+		body := bytes.Repeat([]byte("b"), 40000)
+		ms.SendData = buffer.NewIoBufferBytes(body)
+		perr := guarded(func() error {
+			if e := ms.RoundTrip(ctx); e != nil {
+				return e
+			}
+			return ms.RoundTrip(ctx)
+		})
+		switch {
+		case perr != nil && strings.HasPrefix(perr.Error(), "HANG"):
+			run.Fail("h2conn:client-sender-wedged-by-invalid-max-frame-size", fmt.Sprintf("after SETTINGS_MAX_FRAME_SIZE=%d from the peer (accepted without error) the request sender never finishes", v), rep)
+		case perr != nil && strings.HasPrefix(perr.Error(), "PANIC"):
+			run.Fail("h2conn:client-sender-panics-on-invalid-max-frame-size", fmt.Sprintf("after SETTINGS_MAX_FRAME_SIZE=%d from the peer (accepted without error) the request sender panics: %v", v, perr), rep)
+		case valid:
+			// the body must have been written completely in frames of at most v bytes
+			got := 0
+			xr := xh2.NewFramer(nil, bytes.NewReader(fc.out.Bytes()[len(xh2.ClientPreface):]))
+			for {
+				fr, e := xr.ReadFrame()
+				if e != nil {
+					break
+				}
+				if df, ok := fr.(*xh2.DataFrame); ok {
+					got += len(df.Data())
+				}
+			}
+			if got != len(body) {
+				run.Fail("h2conn:client-body-not-written", fmt.Sprintf("SETTINGS_MAX_FRAME_SIZE=%d: %d of %d body bytes written", v, got, len(body)), rep)
 			}
 		}
 	}
